@@ -150,6 +150,7 @@ func (e *Engine) verifyFunction(fn *ssa.Function, fc *FuncContract) (c *Ctx) {
 		}
 	}
 	entryState := st.clone()
+	c.curBlk = nil
 	f.fnObjs = objs
 	f.hasFrame = fc != nil
 	f.run(st, "true", args, binds)
@@ -160,6 +161,7 @@ func (e *Engine) verifyFunction(fn *ssa.Function, fc *FuncContract) (c *Ctx) {
 		if fc == nil {
 			continue
 		}
+		c.curBlk = rt.blk
 		post := &EvalCtx{c: c, pkg: fn.Pkg.Pkg.Name(), st: rt.st, old: entryState, vars: map[string]SVal{}, reach: rt.reach, frame: nil}
 		for k, v := range entryEv.vars {
 			post.vars[k] = v
@@ -390,6 +392,11 @@ func (ob *Obligation) query(prelude string, gax []string) string {
 		sb.WriteString("(assert " + a + ")\n")
 	}
 	for k, f := range c.facts[:ob.NFact] {
+		// facts established in a block from which the obligation's block cannot be reached are irrelevant
+		// on every path to the obligation (their guard is false there); dropping assumptions is always sound
+		if ob.Blk != nil && c.fblks[k] != nil && !c.blockReaches(c.fblks[k], ob.Blk) {
+			continue
+		}
 		if len(ob.Needs) > 0 && c.ftags[k] != "" {
 			// needs: "a,b" = only facts from clauses a,b (plus untagged); "~a,~b" = all but those
 			if strings.HasPrefix(ob.Needs[0], "~") {
